@@ -208,9 +208,9 @@ def run(ctx):
         if c == 5:
             dist["prefix_only_ambiguous_arith_error"] += len(where); continue
         if o[0] == "panic":
-            key = "one-char-atom-list-compact-string-panic" if S.uses_char_lists(prog, q) else "panic:" + o[1][:48]
+            key = S.panic_key(prog, q, o[1])
         elif c == 1:
-            key = S.failure_key(prog, q)
+            key = S.failure_key(prog, q, o)
             if key == "answers-differ":
                 ms = sorted(set(w.split("/")[0] for w in where))
                 key = "mode-differs:" + ",".join(ms)
